@@ -384,6 +384,7 @@ http_req_sec_chk(const uint8_t *http_hdr, size_t hdr_size, uint32_t method_code)
 /* http://www.nestor.minsk.by/sr/2005/08/sr50806.html */
 	const uint8_t *ptm, *hdr_max;
 	size_t cl_count, te_count, tmp;
+	int in_name = 0; /* From field line start to first ':'. Request line: no. */
 
 	/*
 	 * Security checks:
@@ -406,6 +407,13 @@ http_req_sec_chk(const uint8_t *http_hdr, size_t hdr_size, uint32_t method_code)
 		    hdr_max > (ptm + 1) &&
 		    ':' == (*(ptm + 1)))
 			return (1); /* SP':' */
+		if ('\t' == (*ptm) && 0 != in_name &&
+		    hdr_max > (ptm + 1) &&
+		    ':' == (*(ptm + 1)))
+			return (1); /* field-name HTAB':' */
+		if (':' == (*ptm)) {
+			in_name = 0;
+		}
 		if (31 < (*ptm) ||
 		    '\t' == (*ptm))
 			continue;
@@ -413,6 +421,9 @@ http_req_sec_chk(const uint8_t *http_hdr, size_t hdr_size, uint32_t method_code)
 		    hdr_max > (ptm + 1) &&
 		    '\n' == (*(ptm + 1))) {
 			ptm ++; /* Skip CRLF. */
+			/* Next line: field-name, continuation if starts from SP / HTAB. */
+			in_name = (hdr_max > (ptm + 1) &&
+			    ' ' != (*(ptm + 1)) && '\t' != (*(ptm + 1)));
 			continue;
 		}
 		return (2); /* Control codes. */
@@ -613,10 +624,10 @@ skip_spwsp2(const uint8_t *buf, size_t buf_size,
 	if (NULL == buf && 0 != buf_size)
 		return (EINVAL);
 	buf_max = (buf + buf_size - 1);
+	/* Skip head spaces: the size does not depend on buf_ret. */
+	for (; buf <= buf_max && 33 > (*buf); buf ++)
+		;
 	if (NULL != buf_ret) {
-		/* Skip head spaces. */
-		for (; buf <= buf_max && 33 > (*buf); buf ++)
-			;
 		(*buf_ret) = buf;
 	}
 	if (NULL != buf_size_ret) {
@@ -778,6 +789,7 @@ http_hdr_val_remove(uint8_t *http_hdr, uint8_t *hdr_lcase, size_t hdr_size,
 	uint8_t *val, *val_end, *hdr_lcase_end;
 	size_t val_size;
 	size_t ret = 0;
+	int folded_to_end;
 
 	if (NULL == http_hdr || NULL == hdr_lcase || 0 == hdr_size ||
 	    NULL == val_name || 0 == val_name_size)
@@ -793,18 +805,24 @@ http_hdr_val_remove(uint8_t *http_hdr, uint8_t *hdr_lcase, size_t hdr_size,
 		    (val == hdr_lcase || ((val > (hdr_lcase + 2)) &&
 		    0 == memcmp(CRLF, (val - 2), 2)))) {
 			ret ++;
+			folded_to_end = 0;
 			val_end = mem_find_ptr_cstr((val + val_name_size + 1),
 			    hdr_lcase, hdr_size, CRLF);
 			while (NULL != val_end && (val_end + 2) < hdr_lcase_end &&
 			    (' ' == val_end[2] || '\t' == val_end[2])) {
 				val_end = mem_find_ptr_cstr((val_end + 2),
 				    hdr_lcase, hdr_size, CRLF);
+				if (NULL == val_end) { /* Last line is continuation. */
+					folded_to_end = 1;
+				}
 			}
 			if (NULL != val_end) {
 				val_end += 2;
 			} else {
-				val_end = mem_chr_ptr((val + val_name_size + 1),
-				    hdr_lcase, hdr_size, '\n'); /* LF */
+				if (0 == folded_to_end) {
+					val_end = mem_chr_ptr((val + val_name_size + 1),
+					    hdr_lcase, hdr_size, '\n'); /* LF */
+				}
 				if (NULL != val_end) {
 					val_end ++;
 				} else {
